@@ -376,7 +376,11 @@ def rule_i(ctx):
     including the request-response callback after a terminal frame) and C07.b (no signal / frame after a terminal)."""
     from .c09 import rule_a as c09a
     c09a(ctx)
+    # the Rx adapters: a terminal signal marks the stream done, and only a stream that is not done is cancelled when
+    # the observer is disposed (otherwise CANCEL follows the peer's ERROR / COMPLETE)
+    from .c20 import rule_d as c20d
+    c20d(ctx)
 
 
 RULES = [('C08.a', rule_a), ('C08.b', rule_b), ('C08.c', rule_c), ('C08.d', rule_d), ('C08.e', rule_e),
-         ('C08.f', rule_f), ('C08.g', rule_g), ('C05.a', rule_order), ('C13.a+C16.b', rule_h), ('C09.a', rule_i)]
+         ('C08.f', rule_f), ('C08.g', rule_g), ('C05.a', rule_order), ('C13.a+C16.b', rule_h), ('C09.a+C20.d', rule_i)]
